@@ -6,6 +6,13 @@
        Shape     (same out) matches Pattern(tree)
        Balance   (same out) brace-balanced unless the tree has literal braces
        Again     out2 = a second conversion of a freshly parsed copy (deterministic)
+       Alternate same = the SAME element object converted a second time; alt = that object converted
+                 once more after another tree's object was converted in between (A, A, B, A)
+       History   the same element object is then edited IN PLACE (a run's text changed / a child
+                 appended / a child removed; tree2 = the abstract tree after the edit) and converted
+                 again: out = that result, fresh = conversion of a freshly parsed copy of the edited
+                 element's serialisation.  The result is a function of the tree, not of the call
+                 history: out = fresh, and out satisfies the clauses for tree2
        Docx      doc  = what read_docx printed for the formula embedded in a paragraph
                         [st |-> "ok" | "absent" (nothing printed) | "exc" | "na" (channel not run), o |-> atoms]
        Pptx      ppt  = PptxSlide.formulas of a slide whose shape holds the formula (same encoding)
@@ -35,13 +42,20 @@ TraceTotal   == IsEvent("Total") /\ Total(Ev.out)
 TraceShape   == IsEvent("Shape") /\ Matches(Ev.out, pat)
 TraceBalance == IsEvent("Balance") /\ Balance(Tree, Ev.out)
 TraceAgain   == IsEvent("Again") /\ Ev.out2 = Ev.out
+TraceAlternate == IsEvent("Alternate") /\ Ev.same = Ev.out /\ Ev.alt = Ev.out
+TraceHistory == /\ IsEvent("History")
+                /\ Ev.out = Ev.fresh
+                /\ Total(Ev.out)
+                /\ ("tree2" \in DOMAIN Ev) =>          \* thorough tier: also the clauses for the edited tree
+                       (Matches(Ev.out, Pattern(Ev.tree2)) /\ Balance(Ev.tree2, Ev.out))
 TraceDocx    == IsEvent("Docx") /\ SameOrAbsent(Ev.doc, Ev.out)
 TracePptx    == IsEvent("Pptx") /\ SameOrAbsent(Ev.ppt, Ev.out)
 
 TraceInit == /\ TLCSet(7, JsonDeserialize(IOEnv.TRACE_FILE))
              /\ \E i \in 1..Len(TLCGet(7)) :
                    tid = i /\ l = 1 /\ tr = TLCGet(7)[i] /\ pat = Pattern(TLCGet(7)[i].hdr.tree)
-TraceNext == TraceTotal \/ TraceShape \/ TraceBalance \/ TraceAgain \/ TraceDocx \/ TracePptx
+TraceNext == TraceTotal \/ TraceShape \/ TraceBalance \/ TraceAgain \/ TraceAlternate \/ TraceHistory
+             \/ TraceDocx \/ TracePptx
 TraceSpec == TraceInit /\ [][TraceNext]_tvars
 
 TraceAccept ==
